@@ -1,6 +1,7 @@
 import ALV.Common.Json
 import ALV.Model.C18
 import ALV.Model.C18Res
+import ALV.Model.C18Riff
 import ALV.Spec.C18
 namespace ALV.Driver.C18
 open ALV ALV.J ALV.C18
@@ -74,6 +75,21 @@ def obsJson : Option (Obs (Sample Rat) WavErr) → Json
   | some .stop => Json.str "stop"
   | some (.raised e) => Json.str (wavErr e)
 
+def openErr : OpenErr → String
+  | .eof => "OTHER:EOFError" | .waveError => "wave.Error" | .runtime => "RuntimeError"
+
+/-- the wave file of a request: parsed by the Lean RIFF reader from the bytes of the whole file
+    (`file`), or given by its header fields and data chunk -/
+def wavFileOf (j : Json) : Except String (Except OpenErr WavFile) := do
+  match optField j "file" with
+  | some fj => pure (parseRiff (← getBytes fj))
+  | none =>
+    let bits ← getNat (← field j "bits")
+    let channels ← getNat (← field j "channels")
+    let rate ← getNat (← field j "rate")
+    let data ← getBytes (← field j "data")
+    pure (.ok ⟨channels, headerSampwidth bits, rate, data⟩)
+
 def sourceOf (s : String) : Except String Source :=
   match s with
   | "name" => pure .name | "fileobj" => pure .fileObj | "memory" => pure .memory
@@ -87,21 +103,21 @@ def evOf (s : String) : Except String Ev :=
 
 /-- the life-cycle machine for one way of handing the file over -/
 def resRun (j : Json) (src : Source) : Except String Json := do
-  let bits ← getNat (← field j "bits")
-  let channels ← getNat (← field j "channels")
-  let rate ← getNat (← field j "rate")
   let keep ← getBool (← field j "keep")
-  let data ← getBytes (← field j "data")
-  let hok ← getBool (← field j "header_ok")
+  let hok0 ← getBool (← field j "header_ok")
   let npre ← getNat (← field j "pre")
   let evs ← getList (fun e => do evOf (← getStr e)) (← field j "events")
-  let f : WavFile := ⟨channels, headerSampwidth bits, rate, data⟩
+  let pf ← wavFileOf j
+  let (hok, f, perr) := match pf with
+    | .ok f => (hok0, f, "")
+    | .error e => (false, (⟨1, 1, 1, []⟩ : WavFile), openErr e)
   let o : WavObs Rat := wavStream f keep
   let g := o.gen
   let early := decide (g.err = some WavErr.noUnpacker)
   let pre := List.replicate npre (Handle.fresh .caller)
   match construct src hok pre with
-  | .error hs => pure <| Json.mkObj [("open", Json.str "error"), ("handles", arr handleJson hs)]
+  | .error hs => pure <| Json.mkObj [("open", Json.str "error"), ("handles", arr handleJson hs),
+      ("parse_err", Json.str perr)]
   | .ok s0 =>
     let tr := rTrace g early evs s0
     let k := (evs.filter (· == Ev.next)).length
@@ -149,11 +165,13 @@ def handle1 (entry : String) (j : Json) : Except String Json := do
       ("width", natToJson fmt.width), ("awidth", natToJson afmt.width), ("padlen", natToJson (padLen size xs.length))]
   | "wav" =>
     let bits ← getNat (← field j "bits")
-    let channels ← getNat (← field j "channels")
-    let rate ← getNat (← field j "rate")
     let keep ← getBool (← field j "keep")
-    let data ← getBytes (← field j "data")
-    let f : WavFile := ⟨channels, headerSampwidth bits, rate, data⟩
+    let pf ← wavFileOf j
+    match pf with
+    | .error e => pure <| Json.mkObj [("open_err", Json.str (openErr e))]
+    | .ok f =>
+    let channels := f.channels
+    let data := f.data
     let o : WavObs Rat := wavStream f keep
     let base := [
       ("model", Json.mkObj [("out", arr sampleJson o.gen.out),
